@@ -802,20 +802,16 @@ class Roundtrip(Family):
                     tails.append(["path:skip_reference_sequence", c,
                                   outcome_of(lambda: tskit.TableCollection.load(tq, skip_reference_sequence=True))])
                 # (C) a pipe (not seekable): one complete object, then the cut one
-                if c in (1, 8, 9, 15, 16, 63, 64, cuts[-1]):
-                    import threading
+                if c in (1, 8, 9, 15, 16, 63, 64, cuts[-1]) and len(fb) + c < 60000:
+                    # everything fits into the pipe buffer: write, close the write end, then read
+                    # (a feeder thread would deadlock: the C reader blocks while holding the GIL)
                     r, w = os.pipe()
-
-                    def feed():
-                        with os.fdopen(w, "wb") as wf:
-                            wf.write(fb)
-                            wf.write(fb[:c])
-                    th = threading.Thread(target=feed)
-                    th.start()
+                    with os.fdopen(w, "wb") as wf:
+                        wf.write(fb)
+                        wf.write(fb[:c])
                     with os.fdopen(r, "rb", buffering=0) as rf:
                         first = outcome_of(lambda: tskit.TableCollection.load(rf))
                         o = outcome_of(lambda: tskit.TableCollection.load(rf))
-                    th.join()
                     tails.append(["pipe", c, o if first == "loaded" else "complete object did not load: " + first])
             st["tails"] = tails
             # a file that is not a kastore at all must give a *different* exception
@@ -913,11 +909,10 @@ class Roundtrip(Family):
                 sr = "true" if via == "path:skip_reference_sequence" else "false"
                 tl.append("verdict_agrees (load_verdict %s %s (firstn (Z.to_nat %d) f)) %s" % (sk, sr, c, c10.vcode(o, "tc")))
         tails_term = " && ".join(tl) if tl else "true"
-        return ("(let f := %s in let tc := %s in "
+        return ("(let f := " + clist(fb) + " in let tc := " + tc + " in "
                 "(" + tails_term + ") && "
                 "zlist_eqb (tsk_dump_bytes tc) f && "
-                "match tsk_load_bytes false false f with Ok (tc', rest) => tcoll_eqb tc' (tc_normalise tc) && zlist_eqb rest [] | _ => false end)"
-                % (clist(fb), tc))
+                "match tsk_load_bytes false false f with Ok (tc', rest) => tcoll_eqb tc' (tc_normalise tc) && zlist_eqb rest [] | _ => false end)")
 
     def nontrivial(self, case, obs):
         return any(t["n"] > 0 for d in case["descs"] for t in d["tables"].values())
